@@ -270,7 +270,11 @@ def render_body(k, part, rot):
     if b == 'await':
         return [['await aw(%d)' % k]]
     if b == 'swapout':
-        return [['x%d = p(%d)' % (k, k)], ['import sys, io'], ['sys.stdout = io.StringIO()']]
+        # the replacement left behind: a text buffer, a writer that can only write, a file that is closed again
+        forms = [[['x%d = p(%d)' % (k, k)], ['import sys, io'], ['sys.stdout = io.StringIO()']],
+                 [['x%d = p(%d)' % (k, k)], ['import sys'], ['class W%d(object):' % k, '    def write(self, s):', '        return len(s)'], ['sys.stdout = W%d()' % k]],
+                 [['x%d = p(%d)' % (k, k)], ['import sys, os'], ['f%d = open(os.devnull, "w")' % k], ['sys.stdout = f%d' % k], ['f%d.close()' % k]]]
+        return forms[rot % len(forms)]
     if b == 'closeout':
         forms = [[['x%d = p(%d)' % (k, k)], ['import sys'], ['sys.stdout.close()']],
                  [['x%d = p(%d)' % (k, k)], ['import sys'], ['with sys.stdout:', '    pass']]]
